@@ -55,6 +55,17 @@ type avSlice struct {
 	isNil bool
 }
 type avRef struct{ sym string } // map / chan / other reference token
+// avMap is a map with concrete contents (Harness.Concrete): built by make or handed in by the harness; iterated in
+// insertion order (one of the orders Go may choose).
+type avMap struct{ o *mapObj }
+type mapObj struct {
+	sym        string
+	keys, vals []AV
+}
+type avIter struct {
+	o   *mapObj
+	pos *int
+}
 type avStr struct {
 	sym  string
 	conc string
@@ -131,6 +142,13 @@ func avString(a AV) string {
 		return fmt.Sprintf("slice[%d]%s", len(x.cells), x.sym)
 	case avRef:
 		return x.sym
+	case avMap:
+		if x.o.sym != "" {
+			return x.o.sym
+		}
+		return "map"
+	case avIter:
+		return "iter"
 	case avStr:
 		if x.isC {
 			return fmt.Sprintf("%q", x.conc)
@@ -179,6 +197,10 @@ type Harness struct {
 	InlineAll bool
 	// StopAfter ends the run (successfully) right after an effect for which it returns true.
 	StopAfter func(e Effect) bool
+	// Concrete: maps built by make (or handed in as avMap) keep their contents and can be ranged over, append on
+	// slices of known length is computed, and functions handed to `go` or errgroup.Group.Go run to completion at
+	// that point (one sequential schedule), Group.Wait returning the first non-nil error they returned.
+	Concrete bool
 	// SelectChoice picks the ready case of the nth (0-based) execution of a select statement in a run;
 	// when nil, the choice atom named "select@<function>" is used for every execution.
 	SelectChoice func(st *State, name string, nth int) int
@@ -439,6 +461,7 @@ type machine struct {
 	steps int
 	depth int
 	nsel  map[string]int
+	egErr AV // first non-nil error returned by a function run through errgroup.Group.Go (Harness.Concrete)
 }
 
 type frame struct {
@@ -844,7 +867,12 @@ func (m *machine) call(fn *ssa.Function, args []AV, free []AV) []AV {
 				m.storeCell(p.c, m.eval(fr, x.Val))
 			case *ssa.Go:
 				cc := x.Common()
-				m.effect("go:"+m.calleeLabel(fr, cc), m.evalArgs(fr, cc))
+				args := m.evalArgs(fr, cc)
+				label := m.calleeLabel(fr, cc)
+				m.effect("go:"+label, args)
+				if m.h.Concrete {
+					m.invoke(fr, cc, args, label)
+				}
 			case *ssa.Defer:
 				cc := x.Common()
 				args := m.evalArgs(fr, cc)
@@ -856,7 +884,19 @@ func (m *machine) call(fn *ssa.Function, args []AV, free []AV) []AV {
 			case *ssa.Send:
 				m.effect("send:"+avString(m.eval(fr, x.Chan)), []AV{m.eval(fr, x.X)})
 			case *ssa.MapUpdate:
-				m.effect("mapupdate:"+avString(m.eval(fr, x.Map)), []AV{m.eval(fr, x.Key), m.eval(fr, x.Value)})
+				mp, k, v := m.eval(fr, x.Map), m.eval(fr, x.Key), m.eval(fr, x.Value)
+				m.effect("mapupdate:"+avString(mp), []AV{k, v})
+				if mm, ok := mp.(avMap); ok {
+					found := false
+					for i := range mm.o.keys {
+						if avString(mm.o.keys[i]) == avString(k) {
+							mm.o.vals[i], found = v, true
+						}
+					}
+					if !found {
+						mm.o.keys, mm.o.vals = append(mm.o.keys, k), append(mm.o.vals, v)
+					}
+				}
 			case *ssa.DebugRef:
 			case ssa.Value:
 				fr.env[x] = m.evalInstr(fr, x)
@@ -1103,6 +1143,9 @@ func (m *machine) evalInstr(fr *frame, v ssa.Value) AV {
 	case *ssa.MakeChan:
 		return avRef{"chan"}
 	case *ssa.MakeMap:
+		if m.h.Concrete {
+			return avMap{&mapObj{}}
+		}
 		return avRef{"map"}
 	case *ssa.MakeSlice:
 		// a slice of concrete length: that many fresh (zero) elements
@@ -1151,11 +1194,54 @@ func (m *machine) evalInstr(fr *frame, v ssa.Value) AV {
 			}
 			return rs[0]
 		}
+		if mm, ok := mp.(avMap); ok {
+			conc := func(a AV) bool {
+				switch y := a.(type) {
+				case avInt:
+					return y.atom == ""
+				case avStr:
+					return y.isC
+				}
+				return false
+			}
+			allConc := conc(key)
+			for i, k := range mm.o.keys {
+				if avString(k) == avString(key) {
+					if x.CommaOk {
+						return avTuple{[]AV{mm.o.vals[i], avBool{true}}}
+					}
+					return mm.o.vals[i]
+				}
+				allConc = allConc && conc(k)
+			}
+			if mt, isMap := x.X.Type().Underlying().(*types.Map); isMap && allConc {
+				if z := m.zero(mt.Elem()); z != nil {
+					if x.CommaOk {
+						return avTuple{[]AV{z, avBool{false}}}
+					}
+					return z
+				}
+			}
+		}
 		return avOpaque{"lookup"}
 	case *ssa.Index:
 		return avOpaque{"index"}
-	case *ssa.Range, *ssa.Next:
-		m.fail("range over map/string is outside the decidable fragment at %s", m.w.pos(v.Pos()))
+	case *ssa.Range:
+		if mm, ok := m.eval(fr, x.X).(avMap); ok {
+			return avIter{o: mm.o, pos: new(int)}
+		}
+		m.fail("range over a map of unknown contents / a string is outside the decidable fragment at %s", m.w.pos(v.Pos()))
+	case *ssa.Next:
+		it, ok := m.eval(fr, x.Iter).(avIter)
+		if !ok {
+			m.fail("range over map/string is outside the decidable fragment at %s", m.w.pos(v.Pos()))
+		}
+		if *it.pos >= len(it.o.keys) {
+			return avTuple{[]AV{avBool{false}, avOpaque{"no key"}, avOpaque{"no value"}}}
+		}
+		i := *it.pos
+		*it.pos = i + 1
+		return avTuple{[]AV{avBool{true}, it.o.keys[i], it.o.vals[i]}}
 	}
 	m.fail("unmodelled value instruction %T at %s", v, m.w.pos(v.Pos()))
 	return nil
@@ -1226,6 +1312,9 @@ func (m *machine) invoke(fr *frame, cc *ssa.CallCommon, args []AV, label string)
 		if rs, ok := m.slicesIntrinsic(target, args); ok {
 			return rs
 		}
+		if rs, ok := m.errgroupIntrinsic(target, args); ok {
+			return rs
+		}
 		name, _ := csmapMethod(cc)
 		inl := target.Blocks != nil && m.w.inModule(target) && name == "" && !m.h.NoInline[fname(target)] && !m.h.NoInline[label]
 		if inl && !m.h.InlineAll && pkgOfFn(target) != pkgOfFn(m.h.Fn) {
@@ -1253,12 +1342,37 @@ func (m *machine) builtin(name string, args []AV, cc *ssa.CallCommon) []AV {
 			if a.isC {
 				return []AV{avInt{conc: int64(len(a.conc))}}
 			}
+		case avMap:
+			return []AV{avInt{conc: int64(len(a.o.keys))}}
 		}
 		return []AV{avOpaque{"len"}}
+	case "append":
+		if m.h.Concrete && len(args) == 2 {
+			a, ok1 := args[0].(avSlice)
+			b, ok2 := args[1].(avSlice)
+			known := func(s avSlice) bool { return s.isNil || s.cells != nil || s.sym == "" }
+			if ok1 && ok2 && known(a) && known(b) {
+				cs := append([]*cell{}, a.cells...)
+				for _, c := range b.cells {
+					nc := newCell(c.typ)
+					if _, isStruct := c.typ.Underlying().(*types.Struct); isStruct {
+						m.copyStruct(nc, c)
+					} else {
+						nc.val, nc.have = m.loadCell(c), true
+					}
+					cs = append(cs, nc)
+				}
+				if cs == nil {
+					cs = []*cell{}
+				}
+				return []AV{avSlice{cells: cs}}
+			}
+		}
+		return []AV{avOpaque{name}}
 	case "close":
 		m.effect("close:"+avString(args[0]), nil)
 		return nil
-	case "append", "copy", "cap", "delete", "print", "println", "min", "max":
+	case "copy", "cap", "delete", "print", "println", "min", "max":
 		return []AV{avOpaque{name}}
 	}
 	m.fail("unmodelled builtin %s", name)
@@ -1500,7 +1614,27 @@ func (m *machine) compare(a, b AV, x *ssa.BinOp) (int, bool) {
 			}
 		}
 		return 0, false
+	case avMap:
+		if !eqOnly {
+			return 0, false
+		}
+		switch bv := b.(type) {
+		case avMap:
+			if av.o == bv.o {
+				return 0, true
+			}
+			return 1, true
+		case avRef:
+			if bv.sym == "nil" {
+				return 1, true
+			}
+		}
+		return 0, false
 	case avRef:
+		if bm, isMap := b.(avMap); isMap && eqOnly && av.sym == "nil" {
+			_ = bm
+			return 1, true
+		}
 		bv, ok := b.(avRef)
 		if ok && eqOnly {
 			if av.sym == bv.sym {
@@ -1911,6 +2045,44 @@ func (m *machine) slicesIntrinsic(target *ssa.Function, args []AV) ([]AV, bool) 
 			}
 		}
 		return []AV{avBool{true}}, true
+	}
+	return nil, false
+}
+
+// errgroupIntrinsic (Harness.Concrete): Group.Go runs the function to completion at the point of the call (one
+// sequential schedule) and remembers the first non-nil error; Group.Wait returns it.
+func (m *machine) errgroupIntrinsic(target *ssa.Function, args []AV) ([]AV, bool) {
+	if !m.h.Concrete || target.Pkg == nil || target.Pkg.Pkg.Path() != "golang.org/x/sync/errgroup" || target.Signature.Recv() == nil {
+		return nil, false
+	}
+	switch target.Name() {
+	case "Go":
+		m.effect(fname(target), args)
+		if len(args) != 2 {
+			return nil, false
+		}
+		fv, ok := args[1].(avFunc)
+		if !ok || fv.fn == nil {
+			m.fail("errgroup.Go of an unknown function")
+		}
+		rs := m.call(fv.fn, nil, fv.bindings)
+		if len(rs) != 1 {
+			m.fail("errgroup.Go of a function without an error result")
+		}
+		e, ok := rs[0].(avIface)
+		if !ok {
+			m.fail("the error returned by %s is not determined by the abstract state: %s", fname(fv.fn), avString(rs[0]))
+		}
+		if !e.isNil && m.egErr == nil {
+			m.egErr = e
+		}
+		return []AV{}, true
+	case "Wait":
+		m.effect(fname(target), args)
+		if m.egErr != nil {
+			return []AV{m.egErr}, true
+		}
+		return []AV{avIface{isNil: true}}, true
 	}
 	return nil, false
 }
